@@ -47,14 +47,27 @@ inductive Op where
   | replace (dst src : Var) (old : Str) (new : Var ⊕ Str) (count : Int)
   | render  (src : Var) (spec : Option Str) (o rs re : Bool)
   | find    (src : Var) (a : SArg) (start end_ : Option Int) (rev : Bool)
+  -- appended later (the numbering of the constructors above is fixed: the driver parses by number)
+  | zfill   (dst src : Var) (w : Int)
+  | clip    (dst src : Var) (a b : Option Int)
+  | join    (dst : Var) (vs : List Var)
+  | fmatch  (v : Var) (a : SArg) (spans : List (Int × Int)) (count : Int)
+  | unfmatch (v : Var) (a : Option SArg) (spans : List (Int × Int)) (count : Int)
+  | splitPiece (dst src : Var) (sep : Option Str) (maxsplit : Int) (r : Bool) (j : Nat)
+  | linePiece (dst src : Var) (keepends : Bool) (j : Nat)
+  | partPiece (dst src : Var) (sep : Str) (r : Bool) (j : Nat)
+  | expandtabs (dst src : Var) (k : Int)
   deriving Inhabited
 
 /-- the variables an operation may write -/
 def Op.writes : Op → List Var
   | .new d _ _ | .copy d _ _ | .slice d _ _ _ | .index d _ _ | .add d _ _ | .addStr d _ _
   | .ljust d _ _ _ _ | .rjust d _ _ _ _ | .center d _ _ _ _ | .strip d _ _ _ _
-  | .removeprefix d _ _ | .removesuffix d _ _ | .replace d _ _ _ _ => [d]
-  | .apply v _ _ _ _ | .remove v _ _ _ | .clear v | .iadd v _ | .assign v _ | .simplify v => [v]
+  | .removeprefix d _ _ | .removesuffix d _ _ | .replace d _ _ _ _
+  | .zfill d _ _ | .clip d _ _ _ | .join d _ | .splitPiece d _ _ _ _ _ | .linePiece d _ _ _
+  | .partPiece d _ _ _ _ | .expandtabs d _ _ => [d]
+  | .apply v _ _ _ _ | .remove v _ _ _ | .clear v | .iadd v _ | .assign v _ | .simplify v
+  | .fmatch v _ _ _ | .unfmatch v _ _ _ => [v]
   | .render _ _ _ _ _ | .find _ _ _ _ _ => []
 
 inductive Outcome where
@@ -64,6 +77,19 @@ inductive Outcome where
   | err (e : PyErr)
   | unbound                -- the script names a variable that does not exist
   deriving Repr, Inhabited
+
+/-- `format_matching` for a value that lives in a store: the loop of `AStr.formatMatching`
+    (`AnsiModel/Match.lean`), except that the new setting objects of every iteration get identities
+    from the store's counter `nid` on (and never below the value's own `nextId`).
+    `AStr.formatMatching` numbers them from the value's own `nextId`, which is right for a value on its
+    own but, inside a store, could hand out an identity that another variable already uses for a
+    different object.  With `nid = 0` this function IS `AStr.formatMatching`
+    (`Store.formatMatchingFrom_zero` in `AnsiProofs/Props/C08.lean`). -/
+def AStr.formatMatchingFrom (x : AStr) (nid : Nat) (a : SArg) (spans : List (Int × Int)) (count : Int) :
+    Except PyErr AStr :=
+  (takeCount count spans).foldlM
+    (fun (acc : AStr) (se : Int × Int) =>
+      acc.applyRaw (max nid acc.fmts.nextId) a (some se.1) (some se.2) true) x
 
 namespace Store
 
@@ -87,6 +113,22 @@ def pad1 (σ : Store) (dst : Var) (fill : Str) (f : Char → AStr) : Store × Ou
   match fill with
   | [c] => σ.commit dst (f c)
   | _ => (σ, .err .valueError)
+
+/-- the values of a list of variables; `none` if one of them is not bound -/
+def getAll (σ : Store) : List Var → Option (List AStr)
+  | [] => some []
+  | v :: vs =>
+    match σ.get? v, σ.getAll vs with
+    | some x, some xs => some (x :: xs)
+    | _, _ => none
+
+/-- write the selected element of a result list / tuple to `dst`.  A position that does not exist
+    (`j` out of range) is treated like a variable that does not exist: the store is unchanged and
+    the outcome is `.unbound` (it is the *script* that is wrong; in Python the script's own
+    subscript `pieces[j]` would raise, not a method of the library). -/
+def piece (σ : Store) (dst : Var) : Option AStr → Store × Outcome
+  | some p => σ.commit dst p
+  | none => (σ, .unbound)
 
 def step (σ : Store) : Op → Store × Outcome
   | .new d s ss => σ.fromExcept d (AStr.ofStr s ss σ.nid)
@@ -119,6 +161,24 @@ def step (σ : Store) : Op → Store × Outcome
       match x.findRaw a st en rev with
       | .ok r => (σ, .range r.1 r.2)
       | .error e => (σ, .err e)
+  | .zfill d src w => σ.withVal src fun x => σ.commit d (x.zfill w)
+  | .clip d src a b => σ.withVal src fun x => σ.commit d (x.getSlice a b)
+  | .join d vs =>
+      match σ.getAll vs with
+      | some xs => σ.commit d (AStr.join xs)
+      | none => (σ, .unbound)
+  | .fmatch v a spans count => σ.withVal v fun x =>
+      σ.fromExcept v (x.formatMatchingFrom σ.nid a spans count)
+  | .unfmatch v a spans count => σ.withVal v fun x => σ.fromExcept v (x.unformatMatching a spans count)
+  | .splitPiece d src sep maxsplit r j => σ.withVal src fun x =>
+      match x.splitGen sep maxsplit r with
+      | .ok ps => σ.piece d ps[j]?
+      | .error e => (σ, .err e)
+  | .linePiece d src keepends j => σ.withVal src fun x => σ.piece d (x.splitlines keepends)[j]?
+  | .partPiece d src sep r j => σ.withVal src fun x =>
+      let t := x.partitionGen sep r
+      σ.piece d [t.1, t.2.1, t.2.2][j]?
+  | .expandtabs d src k => σ.withVal src fun x => σ.commit d (x.expandtabs k σ.nid)
 
 /-- run a whole script -/
 def run (σ : Store) (ops : List Op) : Store := ops.foldl (fun s op => (s.step op).1) σ
